@@ -192,6 +192,10 @@ def _resolve(world, a, target):
         return world[target]
     if isinstance(a, list):
         return [_resolve(world, x, target) for x in a]
+    if isinstance(a, dict) and "viewof" in a:
+        # the LIVE list behind a collection's public view (children, sources, ...), not a copy
+        c = world[a["viewof"]]
+        return getattr(c, a["view"]) if hasattr(c, "_children") else []
     raise HarnessError(f"bad arg token {a!r}")
 
 
@@ -621,6 +625,10 @@ class Sim:
                         args.append(w.index(rng.choice(fl)))
                     else:
                         args.append(rng.randrange(n))
+            if rng.random() < 0.08:
+                # the argument is the live list behind another (or the same) collection's public view
+                args = [{"viewof": rng.choice(colls), "view": rng.choice(["children", "sources", "sensors",
+                                                                            "collections", "children_all"])}]
             op = {"op": kind, "t": t, "args": args}
             if kind == "add":
                 op["override"] = rng.random() < cfg["p_override"]
